@@ -36,7 +36,12 @@ def gen_case(rng):
     flags = {'skip_brute': rng.random() < 0.3, 'all_lower': rng.random() < 0.3, 'folder': 'Prince' if rng.random() < 0.1 else 'Grammar'}
     if flags['folder'] == 'Prince':
         gstream.add_prince(rng, spec)
-    return {'spec': spec, 'flags': flags}
+    case = {'spec': spec, 'flags': flags}
+    if rng.random() < 0.07:
+        case['cli'] = True
+        if rng.random() < 0.6:
+            rulesets.legacy_variant(rng, spec)
+    return case
 
 def tie_patterns(lang, index):
     """For every node with >=2 parents: the rank pattern of its parents' probabilities (ties show as equal ranks)."""
@@ -98,6 +103,27 @@ def check_case(run, case):
             dup = sorted((emitted - expected).items())[:3]
             run.violation(f'emitted pre-terminals differ from the language: {sum((expected - emitted).values())} lost, {sum((emitted - expected).values())} repeated/foreign',
                           case, observed={'lost': lost, 'repeated': dup, 'pops': len(mon.pops)}, expected={'size': total})
+        # ---- the process boundary: what the real CLI writes when run to exhaustion is the language, each derivation once (non-Markov languages of
+        # moderate size; rulesets in legacy code pages included - the tool's stdout is UTF-8 here, so every guess is representable)
+        if case.get('cli') and flags['folder'] == 'Grammar' and emitted == expected and not any('M' in b[1] for b in lang.base):
+            want = Counter()
+            for bi, idx, pr, labs in lang.preterminals(cap=80000):
+                want.update(lang.expand(labs, list(idx)))
+            if sum(want.values()) <= 6000:
+                from .. import cli, session
+                sn = session.new_session_name('c02cli')
+                fl = (['--skip_brute'] if flags['skip_brute'] else []) + (['--all_lower'] if flags['skip_case'] else [])
+                out, err, rc, to = cli.run_cli('pcfg_guesser.py', ['-r', name, '-s', sn] + fl, stdin_mode='devnull', timeout=120, max_out=8 << 20)
+                session.drop_session(sn)
+                run.ev('cli_runs')
+                if not to:
+                    got = Counter(out.decode('utf-8', 'replace').split('\n')[:-1] if out else [])
+                    if got != want:
+                        lost = list((want - got).elements())[:5]; extra = list((got - want).elements())[:5]
+                        run.violation(f'pcfg_guesser.py run to exhaustion (ruleset encoding {disk.encoding}): stdout lines differ from the language: {sum((want - got).values())} lost '
+                                      f'{lost}, {sum((got - want).values())} repeated/foreign {extra}', case, observed={'stderr_tail': err[-200:].decode('utf-8', 'replace')})
+                    else:
+                        run.ev('cli_exhaustion_runs_equal_language')
         pats = tie_patterns(lang, index)
         for pat in pats:
             run.add_to_set('tie_patterns', repr(pat))
@@ -109,7 +135,7 @@ def check_case(run, case):
         repo.drop_rules(name)
 
 def run(run, rng):
-    run.required_events = ['POP', 'frontier_checks', 'tie_nodes']
+    run.required_events = ['POP', 'frontier_checks', 'tie_nodes', 'cli_exhaustion_runs_equal_language']
     run.min_distinct = 5
     run.assumptions = ['well-formed rulesets; languages <= 20000 pre-terminals; frontier invariant only where base structures are pairwise distinguishable and the language has <= 1500 nodes',
                        'identity of a pre-terminal = (label sequence with C inserted, index vector); duplicate base structures count separately']
